@@ -17,6 +17,13 @@ PID = 'C08'
 def req_lines(kind):
     if kind == 'okE':
         return F.lines(F.base(1, 1, 1, 4, (3, 2, 1)))
+    if kind == 'okE2':     # okE with one digit of the gradient changed: same number of bytes, other results
+        out = []
+        for l in req_lines('okE'):
+            if l.startswith('Gradient 1,'):
+                l = l[:-1] + ('7' if l[-1] != '7' else '3')
+            out.append(l)
+        return out
     if kind == 'okH':
         return F.lines(F.base(2, 2, 9, 3, (3, 2, 1)))
     if kind == 'okA':
@@ -73,7 +80,10 @@ def req_lines(kind):
 
 
 EVENTS_QUICK = ['okE/c', 'okH/c', 'okA/c', 'okD/c', 'okU/c', 'okX/c', 'okDef/c', 'okOdd/c', 'okCap2/c', 'okS/c', 'hip', 'failR/c', 'failC/c', 'failP/c', 'failX/c', 'rewrite/c',
-                'rewrite:failX/c', 'rewrite@same/c', 'rewrite@older/c', 'rewrite+obj/c', 'ovrA/c', 'ovrB/c', 'okE/n']
+                'rewrite:failX/c', 'rewrite@same/c', 'rewrite@older/c', 'rewrite+obj/c', 'ovrA/c', 'ovrB/c', 'okE/n',
+                # the last plain file asked for once more, unchanged, through the non-caching client (the same file really runs twice in the process);
+                # a rewrite that keeps size and modification time (okE2 differs from okE in one digit)
+                'again/n', 'rewrite:okE2@same/c', 'rewrite:okE2@same/n']
 EVENTS_L3 = ['okOdd/c', 'okDef/c', 'okCap2/c', 'okU/c', 'failX/c', 'rewrite/c', 'rewrite:failX/c', 'ovrA/c', 'ovrB/c']
 OVR_BASE = F.lines(F.base(1, 1, 1, 4, (3, 2, 1)))
 OVR_DROP = ('Production Flow Rate per Well', 'Injection Temperature')
@@ -118,7 +128,14 @@ def replay_history(arg):
                 with open(params.output_file_path) as f:
                     rec['text'] = f.read()
             else:
-                if kind.startswith('rewrite'):
+                if kind == 'again':
+                    if last['path'] is None:
+                        n_files['i'] += 1
+                        last['path'], last['kind'] = str(sim.write_input(req_lines('okU'), name=f'r{n_files["i"]}.txt')), 'okU'
+                        last['params'] = GeophiresInputParameters(from_file_path=last['path'])
+                        clients['n'].get_geophires_result(last['params'])
+                    path, content_kind = last['path'], last['kind']
+                elif kind.startswith('rewrite'):
                     # overwrite the file behind the last requested path with other content and ask the same client again
                     # rewrite[:<content>][@same|@older]: the modification time the rewritten file ends up with is an environment answer
                     # (cp -p, rsync -t, archive extraction and os.replace of a file prepared earlier all give a time that is not newer)
@@ -152,7 +169,7 @@ def replay_history(arg):
                 params = GeophiresInputParameters(dict(OVR_PARAMS), from_file_path=path) if kind in ('ovrA', 'ovrB') else GeophiresInputParameters(from_file_path=path)
                 if kind.startswith('rewrite') and reuse_object and last.get('params') is not None:
                     params = last['params']
-                plain_file_request = (mode == 'c' or kind.startswith('rewrite')) and kind not in ('ovrA', 'ovrB')
+                plain_file_request = (mode == 'c' or kind.startswith('rewrite')) and kind not in ('ovrA', 'ovrB', 'again')
                 last['params'] = params if plain_file_request else last.get('params')
                 if plain_file_request:      # (path, content, request object) of the last plain-file request move together; override requests have their own fixed path
                     last['path'], last['kind'] = path, content_kind
@@ -223,7 +240,7 @@ def judge(history, out, refs, res):
             elif rec['text'] != ref['text']:
                 a, b = ref['text'].splitlines(), rec['text'].splitlines()
                 dl = next(((x, y) for x, y in zip(a, b) if x != y), ('<length>', f'{len(a)} vs {len(b)}'))
-                k = 'stale_or_foreign_result' if ev.startswith('rewrite') else 'result_depends_on_history'
+                k = 'stale_or_foreign_result' if ev.startswith('rewrite') else ('second_run_of_the_same_file_differs' if ev.startswith('again') else 'result_depends_on_history')
                 check.fail(res, f'{k}/{ev}', f'{ctx}: result differs from the isolated run of the same content: {dl[0]!r} vs {dl[1]!r}')
         # (iv) process-state vector (memo tables excluded) equals the pristine one
         st = rec['state']
@@ -258,7 +275,7 @@ def task(payload):
 
 def plan(tier, seed):
     events = EVENTS_QUICK if tier == 'quick' else EVENTS_THOROUGH
-    kinds = sorted({e.partition('/')[0] for e in (EVENTS_WIDE if tier == 'thorough' else events) if not e.startswith('rewrite')} | {'okE', 'okH', 'failX', 'failR'})
+    kinds = sorted({e.partition('/')[0] for e in (EVENTS_WIDE if tier == 'thorough' else events) if not e.startswith(('rewrite', 'again'))} | {'okE', 'okE2', 'okU', 'okH', 'failX', 'failR'})
     outs = compute_references(kinds)
     # (iii) references agree across hash seeds and starting directories
     plan.ref_disagreements = []
@@ -353,7 +370,7 @@ def run(tier, seed, budget=None):
         rule=('explicit-state search over request histories, each replayed in one real process: quick = ALL histories of length <= 2 over 23 events '
               '(10 successful GEOPHIRES requests incl. add-ons, district heating, input units, output-unit directives, an all-defaults request, a many-non-defaults '
               'request, a two-segment request capped in its last segment and a closed-loop (SBT) request; HIP-RA-X; 4 failing requests that fail while reading / calculating / printing / through a bare sys.exit(); rewrite-the-file-with-other-content '
-              '(succeeding or aborting; modification time newer, unchanged or older; a new request object or the one used before)-and-ask-again; the base-file-plus-override-dictionary request of the client on a base that is rewritten with lines dropped; a non-caching client) plus ALL histories of length 3 over 9 events; thorough = all histories of length <= 3 '
+              '(succeeding or aborting; modification time newer, unchanged or older; a new request object or the one used before; also a rewrite that keeps size and modification time)-and-ask-again; the last plain file asked for again unchanged through the non-caching client; the base-file-plus-override-dictionary request of the client on a base that is rewritten with lines dropped; a non-caching client) plus ALL histories of length 3 over 9 events; thorough = all histories of length <= 3 '
               'over 30 events + pruned depth 4; starting directory alternates. References: each request alone '
               'in pristine interpreters under PYTHONHASHSEED 0/1/12345 and two directories. States = digest of the process-state vector after the history'),
         assumptions=['functools memo tables are pure caches and excluded from the state comparison (reported in evidence)',
